@@ -21,6 +21,7 @@ func c07(c *eng.Ctx, r *eng.Report) {
 		"R7.3 for wrapped Ethereum transactions the sender is recovered with an EIP-155 signer built from this chain's id at the given height, the decoded payload is the one converted, every field ConvertTx fills is compared by compareTx, and nil is returned only when the comparison holds; " +
 		"R7.4 every Transaction field read during execution is bound by GenHash or listed in the reviewed exclusion table; " +
 		"R7.5 every call of TransactionPool.AddTransaction is dominated by a successful VerifyTransaction of the same transaction (one-level inlining through sendTransaction). " +
+		"R7.8 a protected payload is recovered only for this chain: in EIP155Signer.Sender the call that recovers the sender is reached only across the edge on which the chain id derived from V compared equal (big.Int.Cmp == 0) to the signer's — a test on the remainder of V after subtracting the chain id (its bit length, say) ignores the sign, and V = 2·chainId − 19 then recovers the honest sender from the same r, s: a second accepted transaction nobody signed; " +
 		"R7.7 a signature has one accepted encoding: the signature check does not rewrite the recovery byte it is given (secp256k1.checkSignature maps 27..30 onto 0..3 in place, so v and v+27 are both accepted — finding F27, recorded; any further alias is reported separately); " +
 		"R7.6 whether a transaction is authentic is a function of the transaction and the height: no cache, package-variable store or unreviewed shared object in the cone of VerifyTransaction and its steps (scratch pools that are Reset() by their taker and the type-keyed RLP codec table excepted). " +
 		"Not decided: ECDSA soundness, bit-flip rejection, acceptance of every honestly signed transaction."
@@ -32,6 +33,7 @@ func c07(c *eng.Ctx, r *eng.Report) {
 	c07Admission(c, r)
 	c07Pure(c, r)
 	c07OneSignatureEncoding(c, r)
+	c07ChainIdBeforeRecover(c, r)
 }
 
 // nilEdgesAt lists the call results known to be nil at instruction in (err == nil edges).
@@ -716,5 +718,40 @@ func c07OneSignatureEncoding(c *eng.Ctx, r *eng.Report) {
 	}
 	if n == 0 {
 		r.Pass(rule, "recid-alias:none", c.Pos(fn.Pos()), "the signature bytes are checked as given")
+	}
+}
+
+// c07ChainIdBeforeRecover: see R7.8.
+func c07ChainIdBeforeRecover(c *eng.Ctx, r *eng.Report) {
+	const rule = "R7.8"
+	r.Min(rule, 1)
+	fn := c.Func("eth_tx", "(EIP155Signer).Sender")
+	if fn == nil {
+		fn = c.Func("eth_tx", "EIP155Signer.Sender")
+	}
+	if !r.Anchor(fn != nil, rule, "eth_tx.EIP155Signer.Sender") {
+		return
+	}
+	n := 0
+	for _, s := range eng.Sites(fn) {
+		if !strings.HasSuffix(s.Name(), "eth_tx.recoverPlain") {
+			continue
+		}
+		n++
+		ok := false
+		for _, cd := range eng.CondsAt(s.Instr) {
+			m, isM := cd.Cmp()
+			if !isM || m.Via != "Cmp" || m.Op != token.EQL {
+				continue
+			}
+			dx, dy := eng.Desc(m.X), eng.Desc(m.Y)
+			if (strings.Contains(dx, "ChainId(") && strings.Contains(dy, "chainId")) || (strings.Contains(dy, "ChainId(") && strings.Contains(dx, "chainId")) {
+				ok = true
+			}
+		}
+		r.Check(ok, rule, "eip155:chain-id-before-recover", c.Pos(s.Pos()), "recoverPlain is reached only across tx.ChainId().Cmp(s.chainId) == 0", "EIP155Signer.Sender recovers the sender of a protected payload without the edge tx.ChainId() == s.chainId in force: with the chain id only subtracted from V and the remainder tested loosely, V = 2·chainId − 19 leaves −27, whose magnitude recovers the honest sender from the same r and s — anyone can turn an accepted wrapped transaction into a second accepted one (new payload and hash, same sender, nonce and content) without the key")
+	}
+	if n == 0 {
+		r.Fail(rule, "eip155:chain-id-before-recover", c.Pos(fn.Pos()), "EIP155Signer.Sender no longer calls recoverPlain: the rule has lost its anchor")
 	}
 }
